@@ -8,8 +8,13 @@ the validity mask and the confidence measure are compared with deep copies taken
 `argmin_split` / `argmax_split` are also called directly on NaN-free volumes (first extremum of every pixel,
 whatever the position of the pixel w.r.t. the internal 100-pixel blocks).
 
-All costs are small integers stored as float32 and all disparity coordinates are multiples of 0.25, so every
-comparison is exact.
+Long disparity axes (ndisp in {127,128,129,255,256,257,300,513,1000}, steps 1, 1/2, 1/4) are exercised on small
+images (1x1, 2x3, 3x101, 101x2) with volumes built so that the winner of most pixels sits at a HIGH sample index
+(>= 128, >= 256, the last one), with ties placed above the winner and near misses placed 256 samples below it
+(an index stored on 8 bits would alias there), for min- and max-type measures, with and without NaNs.
+
+All costs are small integers (|c| <= 2000) stored as float32 and all disparity coordinates are multiples of 0.25
+(|d| <= 1000), so every comparison is exact.
 """
 import hashlib
 import itertools
@@ -27,6 +32,12 @@ INVALIDS = [-9999, 0, "NaN"]  # "NaN" is the documented way to ask for a NaN inv
 CONTENTS = ["ties", "wide", "sparse", "signed"]
 PATTERNS = ["none", "random", "allnan_pixels", "interval", "block_lines", "mostly_nan"]
 DISP_KINDS = ["int", "half", "quarter"]
+# long disparity axes (the index of the winner does not fit in 7 / 8 bits)
+LONG_NDISP = [127, 128, 129, 255, 256, 257, 300, 513, 1000]
+LONG_SHAPES = [(2, 3), (3, 101), (1, 1), (101, 2)]
+LONG_CONTENTS = ["last", "high", "alias_tie", "ramp", "high_interval"]
+LONG_NANS = ["none", "random", "allnan_pixels"]
+LONG_MARKS = [127, 128, 129, 200, 254, 255, 256, 257, 258, 299, 300, 383, 384, 511, 512, 513, 767, 768, 999]
 
 FUNCTIONS = [
     "pandora.disparity.disparity.AbstractDisparity.__new__",
@@ -53,6 +64,8 @@ def gen_volume(p):
     if "explicit" in p:  # exhaustive tiny cases: the cells are written in the parameters
         h, w, nd = p["h"], p["w"], p["nd"]
         return np.array([np.nan if v is None else float(v) for v in p["explicit"]], dtype=np.float32).reshape(h, w, nd)
+    if "long" in p:
+        return gen_long_volume(p)
     h, w, nd = p["h"], p["w"], p["nd"]
     rng = np.random.default_rng([p["seed"], h, w, nd, CONTENTS.index(p["content"]), PATTERNS.index(p["pattern"]),
                                  p.get("rep", 0)])
@@ -89,6 +102,68 @@ def gen_volume(p):
         vol[rng.random((h, w, nd)) < 0.1] = np.nan
     elif pattern == "mostly_nan":
         vol[rng.random((h, w, nd)) < 0.85] = np.nan
+    return vol
+
+
+def gen_long_volume(p):
+    """Long disparity axis: the best cost of (nearly) every pixel is placed at a high sample index.
+
+    The volume is first built as a cost ("min" orientation: best = smallest, integers in 0..1010), the NaN pattern
+    `p["nan"]` is applied without ever hiding the designated winner, and for a "max" measure the values are mirrored
+    (2000 - c), so that the same cell is the best one for both types of measure.  The random draws of the content do
+    not depend on the NaN pattern (check_split relies on it).
+    """
+    h, w, nd = p["h"], p["w"], p["nd"]
+    content, nan = p["long"], p["nan"]
+    rng = np.random.default_rng([p["seed"], h, w, nd, 4242, LONG_CONTENTS.index(content), p.get("rep", 0)])
+    rng_nan = np.random.default_rng([p["seed"], h, w, nd, 4243, LONG_NANS.index(nan), p.get("rep", 0)])
+    k = np.arange(nd)[None, None, :]
+    keep = np.zeros((h, w, nd), dtype=bool)  # cells that the NaN pattern must leave computable
+    dead = np.zeros((h, w, nd), dtype=bool)  # cells that are not computable by construction
+    if content in ("last", "high", "alias_tie"):
+        vol = rng.integers(10, 1000, size=(h, w, nd))
+        lo = min(128, nd // 2)
+        kstar = rng.integers(lo, nd, size=(h, w))
+        marks = np.array([m for m in LONG_MARKS if m < nd] + [nd - 1, nd - 2], dtype=np.int64)
+        pick = rng.random((h, w))
+        if content == "last":
+            kstar[pick < 0.7] = nd - 1
+        else:
+            sel = pick < 0.6
+            kstar[sel] = rng.choice(marks, size=int(sel.sum()))
+        best = rng.integers(0, 9, size=(h, w))
+        rows, cols = np.meshgrid(np.arange(h), np.arange(w), indexing="ij")
+        vol[rows, cols, kstar] = best
+        keep[rows, cols, kstar] = True
+        if content == "alias_tie":
+            # an equal cost above the winner (tie -> lowest disparity) and near misses 256 / 128 samples below it
+            above = np.minimum(kstar + rng.integers(1, 260, size=(h, w)), nd - 1)
+            tie = above > kstar
+            vol[rows[tie], cols[tie], above[tie]] = best[tie]
+            for gap in (256, 128):
+                under = kstar - gap
+                ok = under >= 0
+                vol[rows[ok], cols[ok], under[ok]] = best[ok] + 1
+    elif content == "ramp":
+        # strictly improving along the disparity axis, then a plateau of t + 1 equal best costs at the very end
+        t = rng.integers(0, 4, size=(h, w))
+        vol = np.maximum(nd - k, t[:, :, None]) + 5
+        vol = np.broadcast_to(vol, (h, w, nd)).copy()
+        keep[:, :, nd - 4:] = True
+    else:  # high_interval: only a high interval of disparities is computable, ties inside it
+        vol = rng.integers(0, 3, size=(h, w, nd))
+        lo = rng.integers(min(128, nd // 2), nd, size=(h, w))
+        hi = np.minimum(lo + rng.integers(0, 300, size=(h, w)), nd - 1)
+        dead = (k < lo[:, :, None]) | (k > hi[:, :, None])
+    vol = vol.astype(np.float32)
+    if p["measure"] == "max":
+        vol = (2000 - vol).astype(np.float32)
+    if nan == "random":
+        dead = dead | ((rng_nan.random((h, w, nd)) < 0.3) & ~keep)
+    elif nan == "allnan_pixels":
+        dead = dead | ((rng_nan.random((h, w, nd)) < 0.15) & ~keep)
+        dead[rng_nan.random((h, w)) < 0.2, :] = True
+    vol[dead] = np.nan
     return vol
 
 
@@ -129,8 +204,9 @@ def _inv_value(inv):
 
 
 # --------------------------------------------------------------------------------------------------------- oracle
-def naive_wta(vol, coords, measure, inv):
-    """Per-pixel loop straight from the statement.  Returns (expected map as nested list, #ties, #allnan, #nonzero)."""
+def naive_wta(vol, coords, measure, inv, winners=None):
+    """Per-pixel loop straight from the statement.  Returns (expected map as nested list, #ties, #allnan, #nonzero).
+    `winners` (optional list) receives the sample index of the winner of every pixel that has one (statistics)."""
     cells = vol.tolist()
     coords = [float(c) for c in coords]
     is_max = measure == "max"
@@ -159,8 +235,34 @@ def naive_wta(vol, coords, measure, inv):
                 erow.append(coords[best_k])
                 n_tie += tie
                 n_nonfirst += best_k > 0
+                if winners is not None:
+                    winners.append(best_k)
         exp.append(erow)
     return exp, n_tie, n_allnan, n_nonfirst
+
+
+def _index_class(coords, value):
+    """suffix of the witness class telling how far on the disparity axis the expected winner sits"""
+    ks = [k for k in range(len(coords)) if float(coords[k]) == float(value)]
+    if not ks or ks[0] < 128:
+        return ""
+    return "-expected-index>=256" if ks[0] >= 256 else "-expected-index>=128"
+
+
+def _pixel_text(costs, coords, got, exp):
+    """description of a failing pixel (the whole cost list only when the axis is short)"""
+    coords = [float(c) for c in coords]
+    if len(coords) <= 16:
+        return "costs %s, disparities %s" % (costs.tolist(), coords)
+
+    def cell(value):
+        ks = [k for k in range(len(coords)) if coords[k] == value]
+        return "no sample" if not ks else "sample %d (cost %r)" % (ks[0], float(costs[ks[0]]))
+    return ("%d disparities %r..%r step %r, got = %s, expected = %s"
+            % (len(coords), coords[0], coords[-1], coords[1] - coords[0], cell(got), cell(exp)))
+
+
+LAST_WINNERS = []  # sample indices of the winners of the last checked case (statistics of the long-axis cases)
 
 
 def check_case(p):
@@ -168,6 +270,7 @@ def check_case(p):
     from pandora import disparity
 
     found = []
+    del LAST_WINNERS[:]
     cv, vol, mask, conf, coords = build_cv(p)
     inv = _inv_value(p["invalid"])
     plugin = disparity.AbstractDisparity(**{"disparity_method": "wta", "invalid_disparity": p["invalid"]})
@@ -176,7 +279,7 @@ def check_case(p):
     except Exception as exc:  # the step must work for every cost volume of the quantifier
         found.append(("C03.todisp.runs", "exception-" + type(exc).__name__, "to_disp raised %r" % (exc,), {}))
         return found, (0, 0, 0)
-    exp, n_tie, n_allnan, n_nonfirst = naive_wta(vol, coords, p["measure"], inv)
+    exp, n_tie, n_allnan, n_nonfirst = naive_wta(vol, coords, p["measure"], inv, LAST_WINNERS)
     exp = np.array(exp, dtype=np.float64).reshape(vol.shape[:2])
     got = np.asarray(out["disparity_map"].data)
     if got.shape != exp.shape:
@@ -203,11 +306,12 @@ def check_case(p):
                         kind = "not-the-best-cost"
                     else:
                         kind = "tie-not-lowest-disparity"
-                    wclass = "%s-%s-%s" % (kind, p["measure"], where)
+                    wclass = "%s-%s-%s%s" % (kind, p["measure"], where, _index_class(coords, exp[y, x]))
                 found.append((clause, wclass,
-                              "pixel (%d,%d): costs %s, disparities %s, measure %s: got %r, expected %r (%d pixels differ)"
-                              % (y, x, vol[y, x].tolist(), [float(c) for c in coords], p["measure"],
-                                 float(got64[y, x]), float(exp[y, x]), int(bad.sum())), {"pixel": [y, x]}))
+                              "pixel (%d,%d): %s, measure %s: got %r, expected %r (%d pixels differ)"
+                              % (y, x, _pixel_text(vol[y, x], coords, float(got64[y, x]), float(exp[y, x])),
+                                 p["measure"], float(got64[y, x]), float(exp[y, x]), int(bad.sum())),
+                              {"pixel": [y, x]}))
     # frame: cost volume values unchanged
     after = np.asarray(cv["cost_volume"].data)
     if not same(after, vol):
@@ -242,11 +346,16 @@ def check_split(p):
     from pandora import disparity
 
     found = []
+    del LAST_WINNERS[:]
     q = dict(p)
     q["pattern"] = "none"
+    if "long" in p:
+        q["nan"] = "none"
     cv, vol, _, _, coords = build_cv(q)
-    if p.get("split_inf", False):  # the way to_disp calls it: "not computable" replaced by +/-inf
-        nanvol = gen_volume(p)
+    if p.get("split_inf", False) or np.isnan(vol).any():
+        # the way to_disp calls it: "not computable" replaced by +/-inf (the "high_interval" long-axis volumes are
+        # never NaN-free, so they are always passed that way)
+        nanvol = gen_volume(p) if p.get("split_inf", False) else vol
         vol = np.where(np.isnan(nanvol), -np.inf if p["measure"] == "max" else np.inf, nanvol).astype(np.float32)
         cv["cost_volume"].data[:] = vol
     plugin = disparity.AbstractDisparity(**{"disparity_method": "wta", "invalid_disparity": 0})
@@ -257,7 +366,7 @@ def check_split(p):
     except Exception as exc:
         return [("C03.split.runs", "exception-" + type(exc).__name__, "%s raised %r" % (name, exc), {})], (0, 0, 0)
     # naive: +/-inf are ordinary extended reals here, so reuse the scan with no NaN present
-    exp, n_tie, _, n_nonfirst = naive_wta(vol, coords, p["measure"], 0.0)
+    exp, n_tie, _, n_nonfirst = naive_wta(vol, coords, p["measure"], 0.0, LAST_WINNERS)
     exp = np.array(exp, dtype=np.float64).reshape(vol.shape[:2])
     if got.shape != exp.shape or not np.array_equal(got.astype(np.float64), exp):
         if got.shape != exp.shape:
@@ -265,8 +374,10 @@ def check_split(p):
         else:
             y, x = [int(v) for v in np.argwhere(got.astype(np.float64) != exp)[0]]
             where = "beyond-first-block" if (y >= 100 or x >= 100) else "first-block"
-            msg = "%s pixel (%d,%d): costs %s -> %r, expected %r" % (name, y, x, vol[y, x].tolist(), float(got[y, x]),
-                                                                      float(exp[y, x]))
+            where += _index_class(coords, exp[y, x])
+            msg = "%s pixel (%d,%d): %s -> %r, expected %r" % (
+                name, y, x, _pixel_text(vol[y, x], coords, float(got[y, x]), float(exp[y, x])), float(got[y, x]),
+                float(exp[y, x]))
             extra = {"pixel": [y, x]}
         found.append(("C03.split." + name, where, msg, extra))
     if not same(np.asarray(cv["cost_volume"].data), vol):
@@ -329,6 +440,52 @@ def split_cases(tier, seed):
                        "disp_kind": DISP_KINDS[int(rng.integers(3))], "dmin": int(rng.integers(-4, 3)), "conf": False}
 
 
+def _long_params(rng, seed, nd, measure, content, nan, disp_kind, shape, rep_):
+    h, w = shape
+    step = {"int": 1, "half": 2, "quarter": 4}[disp_kind]
+    # first disparity: 0, slightly negative, or such that the axis straddles 0 (integer valued in every case)
+    dmin = [0, -3, -(nd // (2 * step))][int(rng.integers(3))]
+    return {"h": h, "w": w, "nd": nd, "measure": measure, "invalid": INVALIDS[int(rng.integers(3))], "seed": seed,
+            "rep": rep_, "long": content, "nan": nan, "disp_kind": disp_kind, "dmin": dmin,
+            "row0": int(rng.integers(0, 3)), "col0": int(rng.integers(0, 3)), "conf": bool(rng.random() < 0.5)}
+
+
+def long_cases(tier, seed):
+    """to_disp on long disparity axes.  quick: every ndisp x measure, 2 volumes (one NaN-free, one with NaNs), the
+    content kind / disparity step / shape cycling with (ndisp, measure, seed) so that every kind and every step is met
+    for every ndisp class; thorough: the full product ndisp x measure x content x NaN pattern x disparity step."""
+    rng = np.random.default_rng([seed, 11])
+    if tier == "quick":
+        for i, nd in enumerate(LONG_NDISP):
+            for j, measure in enumerate(MEASURES):
+                for r, nan in enumerate(("none", LONG_NANS[1 + (i + j + seed) % 2])):
+                    n = 2 * i + j + 3 * r + seed
+                    yield _long_params(rng, seed, nd, measure, LONG_CONTENTS[n % len(LONG_CONTENTS)], nan,
+                                       DISP_KINDS[(i + j + r + seed) % 3], LONG_SHAPES[(i + r) % 2], 20 + r)
+    else:
+        for nd in LONG_NDISP:
+            for measure in MEASURES:
+                for content in LONG_CONTENTS:
+                    for nan in LONG_NANS:
+                        for disp_kind in DISP_KINDS:
+                            shape = LONG_SHAPES[int(rng.integers(len(LONG_SHAPES)))]
+                            yield _long_params(rng, seed, nd, measure, content, nan, disp_kind, shape, 20)
+
+
+def long_split_cases(tier, seed):
+    """argmin_split / argmax_split directly on long disparity axes (NaN-free, or NaN replaced by +/-inf)"""
+    rng = np.random.default_rng([seed, 13])
+    for i, nd in enumerate(LONG_NDISP):
+        for j, measure in enumerate(MEASURES):
+            contents = LONG_CONTENTS if tier != "quick" else [LONG_CONTENTS[(i + 2 * j + seed + 1) % len(LONG_CONTENTS)]]
+            for content in contents:
+                for split_inf in ((False, True) if tier != "quick" else (bool((i + j + seed) % 2),)):
+                    p = _long_params(rng, seed, nd, measure, content, LONG_NANS[1 + int(rng.integers(2))],
+                                     DISP_KINDS[int(rng.integers(3))], LONG_SHAPES[int(rng.integers(2))], 27)
+                    p.update({"invalid": 0, "conf": False, "split_inf": split_inf})
+                    yield p
+
+
 def _key(p, kind):
     vol = gen_volume(p)
     return (kind, p["h"], p["w"], p["nd"], p["measure"], str(p["invalid"]), p.get("disp_kind"), p.get("dmin"),
@@ -347,16 +504,37 @@ def _witness(p, kind, extra):
 def run(tier: str, seed: int) -> dict:
     rec = Recorder()
     rec.functions.update(FUNCTIONS)
-    streams = (("to_disp", tiny_cases(), check_case), ("to_disp", random_cases(tier, seed), check_case),
-               ("split", split_cases(tier, seed), check_split))
+    # the long-axis cases come right after the exhaustive tiny ones (they are cheap and their witnesses are small images)
+    streams = (("to_disp", tiny_cases(), check_case), ("to_disp", long_cases(tier, seed), check_case),
+               ("split", long_split_cases(tier, seed), check_split),
+               ("to_disp", random_cases(tier, seed), check_case), ("split", split_cases(tier, seed), check_split))
+    n_long = n_long128 = n_long256 = n_long_last = 0
+    pix128 = pix256 = 0
+    long_sampled = 0
     for kind, cases, checker in streams:
         for p in cases:
             found, (n_tie, n_allnan, n_nonfirst) = checker(p)
             nontrivial = (n_tie + n_allnan + n_nonfirst) > 0
-            rec.case(key=_key(p, kind), nontrivial=nontrivial,
-                     sample={"kind": kind, "params": p, "ties": n_tie, "all_nan_pixels": n_allnan,
-                             "winner_not_first": n_nonfirst} if ("explicit" not in p or rec.evaluations == 100)
-                     else None)
+            sample = None
+            if "long" in p:
+                w128 = sum(1 for k in LAST_WINNERS if k >= 128)
+                w256 = sum(1 for k in LAST_WINNERS if k >= 256)
+                wlast = sum(1 for k in LAST_WINNERS if k == p["nd"] - 1)
+                n_long += 1
+                n_long128 += w128 > 0
+                n_long256 += w256 > 0
+                n_long_last += wlast > 0
+                pix128 += w128
+                pix256 += w256
+                if long_sampled < 2 and p["nd"] >= 256 and w256 > 0:
+                    long_sampled += 1
+                    sample = {"kind": kind, "params": p, "ties": n_tie, "all_nan_pixels": n_allnan,
+                              "pixels": p["h"] * p["w"], "winner_index>=128": w128, "winner_index>=256": w256,
+                              "winner_is_last_sample": wlast}
+            elif "explicit" not in p or rec.evaluations == 100:
+                sample = {"kind": kind, "params": p, "ties": n_tie, "all_nan_pixels": n_allnan,
+                          "winner_not_first": n_nonfirst}
+            rec.case(key=_key(p, kind), nontrivial=nontrivial, sample=sample)
             for clause, wclass, message, extra in found:
                 rec.violation(clause=clause, witness_class=wclass, message=message,
                               witness=_witness(p, kind, dict(extra, clause=clause)))
@@ -368,7 +546,18 @@ def run(tier: str, seed: int) -> dict:
              + ", integer costs (content kinds ties/wide/sparse/signed), NaN patterns none/random/all-NaN pixels/"
              "per-pixel interval/all-NaN lines at the block borders/85% NaN, disparity grids with step 1, 0.5, 0.25, "
              "with and without confidence_measure; (c) argmin_split/argmax_split directly on every (rows, cols) pair "
-             "(NaN-free or +/-inf-substituted volumes). No +/-inf cost in (a),(b).")
+             "(NaN-free or +/-inf-substituted volumes); (d) long disparity axes: ndisp in {127,128,129,255,256,257,300,"
+             "513,1000} x measure {min,max} on 2x3 / 3x101 (thorough: also 1x1, 101x2) images, disparity step 1, 0.5, "
+             "0.25, first disparity 0 / -3 / axis centred on 0, volumes with the best cost at a high sample index "
+             "(kinds: last sample; random index >= 128 or a mark around 128/256/512/768/last; the same with an equal "
+             "cost above the winner and near misses 256 and 128 samples below; monotone ramp with a final plateau; only a "
+             "high interval computable with ties inside), NaN patterns none / 30% / 15% + all-NaN pixels: "
+             + ("2 volumes per (ndisp, measure) for to_disp and 1 for argmin_split/argmax_split"
+                if tier == "quick" else "every (ndisp, measure, kind, NaN pattern, step) for to_disp and every (ndisp, "
+                "measure, kind) x {NaN-free, +/-inf-substituted} for argmin_split/argmax_split")
+             + " [%d long-axis cases: %d with a winner at sample index >= 128, %d at index >= 256, %d at the last "
+             "sample; %d pixels with a winner index >= 128, %d with >= 256]. No +/-inf cost in (a),(b),(d: to_disp)."
+             % (n_long, n_long128, n_long256, n_long_last, pix128, pix256))
     rule = ("Each case = one cost volume dataset + configuration; the real to_disp output is compared cell by cell "
             "with a per-pixel scan (first strictly better non-NaN cost in increasing disparity order; "
             "invalid_disparity when none), exact NaN-aware equality; cost volume / validity_mask / confidence_measure "
@@ -380,6 +569,8 @@ def run(tier: str, seed: int) -> dict:
 
 def replay(witness: dict) -> bool:
     p = witness["params"]
+    if "long" in p:  # json turned nothing into something else here, but be explicit about the integer fields
+        p = dict(p, h=int(p["h"]), w=int(p["w"]), nd=int(p["nd"]), seed=int(p["seed"]), dmin=int(p["dmin"]))
     checker = check_split if witness.get("kind") == "split" else check_case
     found, _ = checker(p)
     clause = witness.get("clause")
